@@ -115,3 +115,128 @@ Theorem MultiaddrsEqual_head_table : forall (T : Type) (a b : list T),
   else if len a =? 1 then FReturn "return ma1[0].Equal(ma2[0])"%string []
   else FFall [].
 Proof. reflexivity. Qed.
+
+(* ================================================================== *)
+(* phase 2: mautil.CleanPeerAddrInfo's loop (nil addresses are removed by moving the last
+   element into their place) is the model's [clean_f], for every amount of fuel *)
+Lemma last_app_cons {A} (pre : list A) (y : A) (r : list A) (d : A) : last (pre ++ y :: r) d = last (y :: r) d.
+Proof.
+  induction pre as [|x p IH]; [reflexivity|]. cbn [app]. rewrite <- IH.
+  destruct (p ++ y :: r)%list eqn:E; [destruct p; discriminate|reflexivity].
+Qed.
+
+Lemma clean_loop : forall (nilv dflt : addr) (oof : frag (list addr)) (fuel : nat) (l pre : list addr),
+  (List.length l < fuel)%nat ->
+  mautil_CleanPeerAddrInfo_loop_loop_1 addr a_nil nilv dflt (fun a _ => FFall a) oof fuel (pre ++ l)%list (len pre)
+  = match clean_f fuel l with
+    | Ok t => FFall (pre ++ t)%list
+    | _ => oof
+    end.
+Proof.
+  intros nilv dflt oof. induction fuel as [|f IH]; intros l pre Hf; [lia|].
+  cbn [mautil_CleanPeerAddrInfo_loop_loop_1 clean_f].
+  destruct l as [|a r].
+  - rewrite app_nil_r, Z.ltb_irrefl. reflexivity.
+  - set (L := (pre ++ a :: r)%list).
+    assert (HL : len L = len pre + 1 + len r) by (unfold L, len; rewrite app_length; cbn; lia).
+    pose proof (len_nonneg pre). pose proof (len_nonneg r).
+    replace (len pre <? len L) with true by (symmetry; apply Z.ltb_lt; lia).
+    replace ((0 <=? len pre) && (len pre <? len L))%bool with true
+      by (symmetry; rewrite andb_true_iff, Z.leb_le, Z.ltb_lt; lia).
+    cbn [negb].
+    replace (nth (Z.to_nat (len pre)) L dflt) with a
+      by (unfold L, len; rewrite Nat2Z.id, app_nth2 by lia; rewrite Nat.sub_diag; reflexivity).
+    destruct (a_nil a).
+    + replace ((0 <=? len L - 1) && (len L - 1 <? len L) && ((0 <=? len pre) && (len pre <? len L)))%bool with true
+        by (symmetry; rewrite !andb_true_iff, !Z.leb_le, !Z.ltb_lt; lia).
+      cbn [negb].
+      set (v := nth (Z.to_nat (len L - 1)) L dflt).
+      assert (Hv : v = last (a :: r) dflt).
+      { unfold v. replace (Z.to_nat (len L - 1)) with (List.length L - 1)%nat by (unfold len; lia).
+        rewrite nth_last. unfold L. apply last_app_cons. }
+      set (L1 := (pre ++ v :: r)%list).
+      assert (E1 : list_set L (len pre) v = L1) by (unfold L, L1; apply list_set_app).
+      assert (HL1 : len L1 = len L) by (unfold L1, L, len; rewrite !app_length; reflexivity).
+      rewrite !E1, ?len_list_set. rewrite <- ?HL1. rewrite ?len_list_set.
+      replace ((0 <=? len L1 - 1) && (len L1 - 1 <? len L1))%bool with true
+        by (symmetry; rewrite andb_true_iff, Z.leb_le, Z.ltb_lt; lia).
+      replace ((0 <=? 0) && (0 <=? len L1 - 1) && (len L1 - 1 <=? len L1))%bool with true
+        by (symmetry; rewrite !andb_true_iff, !Z.leb_le; lia).
+      cbn [negb].
+      assert (H2 : slice (list_set L1 (len L1 - 1) nilv) 0 (len L1 - 1) = removelast L1).
+      { pose proof (slice_removelast (list_set L1 (len L1 - 1) nilv)) as S. rewrite len_list_set in S.
+        rewrite S. apply removelast_set_last. unfold L1. destruct pre; discriminate. }
+      rewrite H2. unfold L1. rewrite removelast_app by discriminate.
+      replace (0 <=? len pre) with true by (symmetry; apply Z.leb_le; lia). cbn [andb negb].
+      destruct r as [|b r'].
+      * cbn [removelast]. rewrite app_nil_r. cbn [List.length] in Hf.
+        destruct f as [|f']; [lia|].
+        cbn [mautil_CleanPeerAddrInfo_loop_loop_1].
+        rewrite Z.ltb_irrefl. reflexivity.
+      * rewrite Hv. change (last (a :: b :: r') dflt) with (last (b :: r') dflt).
+        replace (removelast (last (b :: r') dflt :: b :: r')) with (last (b :: r') dflt :: removelast (b :: r')) by reflexivity.
+        replace (last (b :: r') dflt) with (last (b :: r') a)
+          by (clear; revert b; induction r' as [|c r'' IH']; intros b; [reflexivity|apply (IH' c)]).
+        apply IH.
+        assert (HR : forall (x : addr) (q : list addr), List.length (removelast (x :: q)) = List.length q).
+        { intros x q. revert x. induction q as [|y q' IHq]; intros x; [reflexivity|].
+          change (removelast (x :: y :: q')) with (x :: removelast (y :: q')). cbn [List.length]. rewrite IHq. reflexivity. }
+        cbn [List.length] in Hf |- *. rewrite HR. lia.
+    + replace (0 <=? len pre) with true by (symmetry; apply Z.leb_le; lia). cbn [andb negb].
+      replace (len pre + 1) with (len (pre ++ [a])) by (rewrite len_app; reflexivity).
+      unfold L. replace (pre ++ a :: r)%list with ((pre ++ [a]) ++ r)%list by (rewrite <- app_assoc; reflexivity).
+      rewrite IH by (cbn [List.length] in Hf; lia). destruct (clean_f f r); cbn [bind]; try reflexivity. rewrite <- app_assoc. reflexivity.
+Qed.
+
+(* with one unit of fuel more than there are addresses the loop ends, and computes the model's [clean] *)
+Theorem tie_CleanPeerAddrInfo : forall (nilv dflt : addr) (oof : frag (list addr)) (fuel : nat) (l : list addr),
+  (List.length l < fuel)%nat ->
+  mautil_CleanPeerAddrInfo_loop addr a_nil nilv dflt fuel oof l
+  = match clean_f fuel l with Ok t => FFall t | _ => oof end.
+Proof.
+  intros. unfold mautil_CleanPeerAddrInfo_loop. exact (clean_loop nilv dflt oof fuel l [] H).
+Qed.
+
+(* FromURL after the host component: a TCP component exactly when u.Port() is not empty (an
+   explicit port 0 included: the text is "0", not empty), then the scheme component, then an
+   http-path component exactly when u.Path is not empty, its value escaped with url.QueryEscape
+   (from_url_with: h :: port_comps ++ [scheme] ++ path) *)
+Section FromURL.
+  Variables (C M U : Type).
+  Variable join : M -> C -> M.
+  Variable newc : list N -> list N -> C * option string.
+  Variable qesc : list N -> list N.
+  Variables (pathOf schemeOf : U -> list N) (u : U) (nHTTPPATH nTCP : list N).
+  Hypothesis newc_ok : forall n v, snd (newc n v) = None.        (* the components are well formed *)
+
+  Theorem FromURL_tail_table : forall (port : list N) (host : M),
+    match maurl_FromURL_tail C M U join newc qesc pathOf schemeOf u nHTTPPATH nTCP port host with
+    | FReturn ret (_, tr) =>
+        ret = "return joint, nil"%string /\
+        (existsb (String.eqb "wport := multiaddr.Join(*addr, port)") tr = negb (is_nil port)) /\
+        (existsb (String.eqb "joint = multiaddr.Join(joint, httppath)") tr = negb (is_nil (pathOf u)))
+    | _ => False
+    end.
+  Proof.
+    intros. unfold maurl_FromURL_tail. rewrite !gen_bytes_eqb_nil.
+    destruct port as [|p0 port']; cbn [is_nil negb].
+    - pose proof (newc_ok (schemeOf u) []) as E1. destruct (newc (schemeOf u) []) as [c1 e1]. cbn in E1. subst e1. cbn [isNone negb].
+      destruct (pathOf u) as [|q0 q'] eqn:EP; cbn [is_nil negb]; [repeat split; reflexivity|].
+      pose proof (newc_ok nHTTPPATH (qesc (q0 :: q'))) as E2. destruct (newc nHTTPPATH (qesc (q0 :: q'))) as [c2 e2]. cbn in E2. subst e2.
+      cbn. repeat split; reflexivity.
+    - pose proof (newc_ok nTCP (p0 :: port')) as E0. destruct (newc nTCP (p0 :: port')) as [c0 e0]. cbn in E0. subst e0. cbn [isNone negb].
+      pose proof (newc_ok (schemeOf u) []) as E1. destruct (newc (schemeOf u) []) as [c1 e1]. cbn in E1. subst e1. cbn [isNone negb].
+      destruct (pathOf u) as [|q0 q'] eqn:EP; cbn [is_nil negb]; [repeat split; reflexivity|].
+      pose proof (newc_ok nHTTPPATH (qesc (q0 :: q'))) as E2. destruct (newc nHTTPPATH (qesc (q0 :: q'))) as [c2 e2]. cbn in E2. subst e2.
+      cbn. repeat split; reflexivity.
+  Qed.
+End FromURL.
+
+(* the model decides the same two things the same way *)
+Theorem model_from_url_parts : forall esc (u : url),
+  port_comps u = match u_port u with None => Ok [] | Some p => q <- port_stb p ;; Ok [CTcp q] end /\
+  (C20_Maurl.is_nil (u_path u) = true -> forall h p, host_comp u = Ok h -> port_comps u = Ok p ->
+     from_url_with esc u = Ok (h :: p ++ [scheme_comp (u_scheme u)])%list).
+Proof.
+  intros. split; [reflexivity|]. intros E h p Hh Hp. unfold from_url_with. rewrite Hh, Hp, E. cbn. rewrite ?app_nil_r. reflexivity.
+Qed.
